@@ -878,6 +878,13 @@ func finish(c *Ctx) int {
 	if dn == 0 {
 		dn = p.Counters["states"]
 	}
+	if p.Counters["bfs_plus_cases"] > 0 {
+		// a check that runs an explicit-state search and then a family of
+		// enumerated cases: both count as evaluations
+		ev += p.Counters["transitions"]
+		dn += p.Counters["states"]
+		delete(cov, "bfs_plus_cases")
+	}
 	cov["evaluations"] = ev
 	cov["distinct_nontrivial"] = dn
 	if c.Check.Level == "model_checking" {
